@@ -199,7 +199,7 @@ def gen_c10(seed, size="quick"):
     dom = r.choice([8, 15, 30])
     edb(t, r, r.choice([20, 60, 150]) if size == "quick" else r.choice([60, 150, 300]), dom)
     t.meta["choice"] = []
-    kinds = r.sample(["single", "two", "composite", "tree", "recursive_pick", "agg", "agg2", "idx", "idx2", "exists", "nonprefix", "arith", "withfacts", "rec3", "tree_helper", "pingpong", "repeat", "inline_body", "subkey"],
+    kinds = r.sample(["single", "two", "composite", "tree", "recursive_pick", "agg", "agg2", "idx", "idx2", "exists", "nonprefix", "arith", "withfacts", "rec3", "tree_helper", "pingpong", "repeat", "inline_body", "subkey", "twin"],
                      r.randrange(1, 4))
     for kind in kinds:
         if kind == "nonprefix":
@@ -224,6 +224,24 @@ def gen_c10(seed, size="quick"):
             t.rules.append({"head": ("pickf", [V("x"), V("y")]), "body": [("atom", "e1", [V("x"), V("y")])]})
             t.meta["choice"].append({"rel": "pickf", "keys": [[0], [1]]})
             t.outputs.append("pickf")
+        elif kind == "twin":
+            # a choice relation and a plain relation with the same single rule, neither of them an output: program
+            # minimisation must not merge them (the copies that are written show which one survived)
+            cz = r.choice(["twa", "twz"])  # sorts before / after the plain twin
+            k = r.randrange(0, 4)
+            t.decls.append(".decl %s(x:number,y:number) choice-domain x" % cz)
+            t.decls.append(".decl twm(x:number,y:number)")
+            t.decls.append(".decl otz(x:number,y:number)")
+            t.decls.append(".decl otm(x:number,y:number)")
+            t.extra_text.append("twm(x,y) :- e1(x,y), x > %d." % k)
+            t.extra_text.append("%s(x,y) :- e1(x,y), x > %d." % (cz, k))
+            t.extra_text.append("otz(x,y) :- %s(x,y)." % cz)
+            t.extra_text.append("otm(x,y) :- twm(x,y).")
+            t.rules.append({"head": ("otz", [V("x"), V("y")]), "body": [("atom", "e1", [V("x"), V("y")]), ("cmp", ">", V("x"), C(k))], "hidden": True})
+            t.rules.append({"head": ("otm", [V("x"), V("y")]), "body": [("atom", "e1", [V("x"), V("y")]), ("cmp", ">", V("x"), C(k))], "hidden": True})
+            t.meta["choice"].append({"rel": "otz", "keys": [[0]]})
+            t.meta.setdefault("downstream", []).append("otm")
+            t.outputs += ["otz", "otm"]
         elif kind == "subkey":
             # a composite key declared before one of its sub-keys (and the other way round), non-recursive and recursive
             order = r.choice(["(k,a), k", "k, (k,a)", "(k,a,b), (a,b)", "(k,a), a, k"])
@@ -349,6 +367,9 @@ def gen_c10(seed, size="quick"):
             t.meta["choice"].append({"rel": "walk", "keys": [[0], [1]]})
             t.outputs.append("walk")
     side_rules(t, r)
+    if r.random() < 0.2:
+        # the magic-set pipeline must leave choice relations (and what they depend on) intact
+        t.decls.insert(0, r.choice(['.pragma "magic-transform" "*"', '.pragma "magic-transform" "side1"']))
     return t
 
 
@@ -402,7 +423,7 @@ def gen_c11(seed, size="quick", always=()):
     dom = r.choice([6, 10, 16])
     edb(t, r, r.choice([15, 40, 90]) if size == "quick" else r.choice([40, 90, 200]), dom)
     t.meta["subsumed"] = []
-    kinds = r.sample(["shortest", "pareto", "latest", "shortest2", "countdown", "via_helper", "merge", "loaded", "loaded_rec", "infacts", "guarded", "const_head", "secondary", "secondary3"],
+    kinds = r.sample(["shortest", "pareto", "latest", "shortest2", "countdown", "via_helper", "merge", "loaded", "loaded_rec", "infacts", "guarded", "const_head", "secondary", "secondary3", "mutual_sub"],
                      r.randrange(1, 3))
     kinds = list(always) + [k for k in kinds if k not in always]
     for kind in kinds:
@@ -475,6 +496,21 @@ def gen_c11(seed, size="quick", always=()):
             t.meta["subsumed"].append({"rel": "sd", "dom": "lt1", "monotone": True})
             t.meta.setdefault("downstream", []).extend(["byd", "byx"])
             t.outputs += ["sd", "byd", "byx"]
+        elif kind == "mutual_sub":
+            # two (or three) subsumptive relations in one SCC, each derived only from the previous one
+            bound = r.choice([10, 16, 22])
+            names = ["ua", "ub", "uc"][: r.choice([2, 2, 3])]
+            r.shuffle(names)
+            for nm in names:
+                t.decls.append(".decl %s(x:number,d:number) btree_delete" % nm)
+            t.rules.append({"head": (names[0], [V("x"), C(0)]), "body": [("atom", "n1", [V("x")]), ("cmp", "<", V("x"), C(3))]})
+            for i, nm in enumerate(names):
+                nxt = names[(i + 1) % len(names)]
+                t.rules.append({"head": (nxt, [V("y"), ADD(V("d"), V("w"))]),
+                                "body": [("atom", nm, [V("x"), V("d")]), ("atom", "ew", [V("x"), V("y"), V("w")]), ("cmp", "<", ADD(V("d"), V("w")), C(bound))]})
+                t.extra_text.append("%s(x,d1) <= %s(x,d2) :- d2 < d1." % (nm, nm))
+                t.meta["subsumed"].append({"rel": nm, "dom": "lt1", "monotone": True})
+                t.outputs.append(nm)
         elif kind == "secondary3":
             # cost-first shortest paths read by three later rules through three different indexes
             bound = r.choice([10, 16])
